@@ -109,7 +109,7 @@ theorem matInv_tx {s s' : St} {t : Tx} (h : MatInv s) (e : TxEffect s t s') : Ma
   | stake v d a h0 hlt hc hf hu hp => exact ⟨h.nodup, h.off, h.maturing, h.bnd⟩
   | gstake v d a hp => exact ⟨h.nodup, h.off, h.maturing, h.bnd⟩
   | unstake v d a r hv hsa h0 hlt hf hr h1 h2 h3 hp => exact matInv_unstake h v d a r
-  | withdraw v d a h0 hlt hc ho hf hb =>
+  | withdraw v d a h0 hlt hc ho hf hfo hb =>
     refine ⟨h.nodup, h.off, h.maturing, ?_⟩
     intro d'
     have := h.bnd d'
@@ -123,6 +123,7 @@ theorem matInv_tx {s s' : St} {t : Tx} (h : MatInv s) (e : TxEffect s t s') : Ma
   | closeRequest v => exact ⟨h.nodup, h.off, h.maturing, h.bnd⟩
   | setMaturity m => exact ⟨h.nodup, h.off, h.maturing, h.bnd⟩
   | credit d x => exact ⟨h.nodup, h.off, h.maturing, h.bnd⟩
+  | setIterVals l => exact ⟨h.nodup, h.off, h.maturing, h.bnd⟩
 
 theorem matInv_runTxs {s : St} {txs : List Tx} (h : MatInv s) : MatInv (runTxs s txs) := by
   induction txs generalizing s with
@@ -171,8 +172,8 @@ theorem matInv_foldSlash {s : St} (c : Cfg) (h : MatInv s) (g : List Addr) :
   | nil => exact h
   | cons v t ih => exact ih (matInv_slash c h v)
 
-theorem matInv_endBlock {s : St} (c : Cfg) (h : MatInv s) (g p : List Addr) :
-    MatInv (endBlock c s g p) := by
+theorem matInv_endBlock {s : St} (c : Cfg) (h : MatInv s) (g p dl : List Addr) :
+    MatInv (endBlock c s g p dl) := by
   unfold endBlock
   split
   · exact h
@@ -184,7 +185,7 @@ theorem matInv_execBlock {s : St} (c : Cfg) (h : MatInv s) (b : Block) :
     MatInv (execBlock c s b) := by
   unfold execBlock
   have h1 : MatInv (beginBlock s (s.height + 1)) := ⟨h.nodup, h.off, h.maturing, h.bnd⟩
-  have h2 := matInv_endBlock c (matInv_runTxs (txs := b.txs) h1) b.guilty b.purged
+  have h2 := matInv_endBlock c (matInv_runTxs (txs := b.txs) h1) b.guilty b.purged b.deletable
   exact ⟨h2.nodup, h2.off, h2.maturing, h2.bnd⟩
 
 theorem matInv_run {s : St} (c : Cfg) (h : MatInv s) (bs : List Block) : MatInv (run c s bs) := by
@@ -260,13 +261,14 @@ theorem sched_tx {s s' : St} {t : Tx} (hh : 1 ≤ s.height) (h : Sched s (lowKey
         · have : ¬ d = d' := fun e => hd e.symm
           simp [amtOf, hd, this]; omega
       · simp only [hEq, if_false, false_and]; exact hf'
-  | withdraw v d a h0 hlt hc ho hf hb => exact ⟨⟨h.past, h.future, h.maturity⟩, rfl⟩
+  | withdraw v d a h0 hlt hc ho hf hfo hb => exact ⟨⟨h.past, h.future, h.maturity⟩, rfl⟩
   | freeze v => exact ⟨⟨h.past, h.future, h.maturity⟩, rfl⟩
   | release v => exact ⟨⟨h.past, h.future, h.maturity⟩, rfl⟩
   | allege v => exact ⟨⟨h.past, h.future, h.maturity⟩, rfl⟩
   | closeRequest v => exact ⟨⟨h.past, h.future, h.maturity⟩, rfl⟩
   | setMaturity m => exact ⟨⟨h.past, h.future, hg⟩, rfl⟩
   | credit d x => exact ⟨⟨h.past, h.future, h.maturity⟩, rfl⟩
+  | setIterVals l => exact ⟨⟨h.past, h.future, h.maturity⟩, rfl⟩
 
 theorem sched_runTxs {s : St} {txs : List Tx} (hh : 1 ≤ s.height) (h : Sched s (lowKey s.height))
     (hg : TxsOK MatGuard s txs) :
@@ -303,10 +305,10 @@ theorem foldSlash_mat (c : Cfg) (s : St) (g : List Addr) :
       h1.2.2.2.1.trans h2.2.2.2.1, h1.2.2.2.2.trans h2.2.2.2.2⟩
 
 /-- EndBlock of height h spends key h and nothing else -/
-theorem sched_endBlock {s : St} (c : Cfg) (h : Sched s (lowKey s.height)) (g p : List Addr) :
-    Sched (endBlock c s g p) (lowKey (s.height + 1)) ∧ (endBlock c s g p).height = s.height ∧
-    (endBlock c s g p).gSched = s.gSched ∧
-    (∀ d, (endBlock c s g p).gUnlocked d =
+theorem sched_endBlock {s : St} (c : Cfg) (h : Sched s (lowKey s.height)) (g p dl : List Addr) :
+    Sched (endBlock c s g p dl) (lowKey (s.height + 1)) ∧ (endBlock c s g p dl).height = s.height ∧
+    (endBlock c s g p dl).gSched = s.gSched ∧
+    (∀ d, (endBlock c s g p dl).gUnlocked d =
       s.gUnlocked d + (if s.height ≤ 1 then 0 else s.gSched s.height d)) := by
   unfold endBlock
   by_cases h1 : s.height ≤ 1
@@ -321,7 +323,7 @@ theorem sched_endBlock {s : St} (c : Cfg) (h : Sched s (lowKey s.height)) (g p :
     rw [e2] at h
     rw [e1]
     obtain ⟨f1, f2, f3, f4, f5⟩ := foldSlash_mat c
-      (updateWithdrawReward (writePurge (deleteZeroPower s) p) s.height) g
+      (updateWithdrawReward (writePurge (deleteZeroPower s dl) p) s.height) g
     refine ⟨⟨?_, ?_, ?_⟩, ?_, ?_, ?_⟩
     · intro k hk
       rw [f1]
@@ -373,21 +375,21 @@ theorem schedB_execBlock {s : St} (c : Cfg) (h : SchedB s) (b : Block)
     omega
   obtain ⟨h1, h2⟩ := sched_runTxs hh1 hb hg
   have h2' : (runTxs (beginBlock s (s.height + 1)) b.txs).height = s.height + 1 := h2
-  obtain ⟨h3, h4, h5, h6⟩ := sched_endBlock c h1 b.guilty b.purged
+  obtain ⟨h3, h4, h5, h6⟩ := sched_endBlock c h1 b.guilty b.purged b.deletable
   rw [h2'] at h3 h4 h6
   unfold execBlock
   refine ⟨?_, h4, ?_⟩
   · unfold SchedB
-    have : (commit (endBlock c (runTxs (beginBlock s (s.height + 1)) b.txs) b.guilty b.purged)).height
+    have : (commit (endBlock c (runTxs (beginBlock s (s.height + 1)) b.txs) b.guilty b.purged b.deletable)).height
         = s.height + 1 := h4
     rw [this]
     exact ⟨⟨h3.past, h3.future, h3.maturity⟩, by omega⟩
   · intro d
     have hu : (beginBlock s (s.height + 1)).gUnlocked = s.gUnlocked := rfl
     have := h6 d
-    show (endBlock c (runTxs (beginBlock s (s.height + 1)) b.txs) b.guilty b.purged).gUnlocked d = _
+    show (endBlock c (runTxs (beginBlock s (s.height + 1)) b.txs) b.guilty b.purged b.deletable).gUnlocked d = _
     rw [this]
-    have hs : (commit (endBlock c (runTxs (beginBlock s (s.height + 1)) b.txs) b.guilty b.purged)).gSched
+    have hs : (commit (endBlock c (runTxs (beginBlock s (s.height + 1)) b.txs) b.guilty b.purged b.deletable)).gSched
         = (runTxs (beginBlock s (s.height + 1)) b.txs).gSched := h5
     rw [hs]
     -- the unlocked amount before EndBlock is the one at the start of the block: transactions
@@ -433,7 +435,7 @@ theorem paid_tx {s s' : St} {t : Tx} (h : Paid s) (e : TxEffect s t s') : Paid s
       · exact this.2
     · simp [hEq]; exact this
   | unstake v d a r hv hsa h0 hlt hf hr h1 h2 h3 hp => exact h
-  | withdraw v d a h0 hlt hc ho hf hb =>
+  | withdraw v d a h0 hlt hc ho hf hfo hb =>
     intro d'
     have := h d'
     simp only [withdrawOk, upd_apply, hc]
@@ -448,6 +450,7 @@ theorem paid_tx {s s' : St} {t : Tx} (h : Paid s) (e : TxEffect s t s') : Paid s
   | closeRequest v => exact h
   | setMaturity m => exact h
   | credit d x => exact h
+  | setIterVals l => exact h
 
 theorem paid_runTxs {s : St} {txs : List Tx} (h : Paid s) : Paid (runTxs s txs) := by
   induction txs generalizing s with
@@ -479,7 +482,7 @@ theorem paid_execBlock {s : St} (c : Cfg) (h : Paid s) (b : Block) : Paid (execB
   unfold execBlock
   have h1 : Paid (beginBlock s (s.height + 1)) := h
   have h2 := paid_runTxs (txs := b.txs) h1
-  show Paid (endBlock c _ b.guilty b.purged)
+  show Paid (endBlock c _ b.guilty b.purged b.deletable)
   unfold endBlock
   split
   · exact h2
